@@ -20,6 +20,8 @@ type vhFakeConn struct {
 	// still on its way: the request is in flight)
 	gate      chan struct{}
 	gateAfter int
+	gateOpen  bool
+	rdeadline *time.Timer // armed by SetReadDeadline/SetDeadline: a Read waiting at the gate times out when it fires
 	// stallAt: a Read that reaches this offset fails once with a timeout (the rest of the data arrives later)
 	stallAt int
 	stalled bool
@@ -41,8 +43,19 @@ func (c *vhFakeConn) Read(b []byte) (int, error) {
 	if c.closed {
 		return 0, io.ErrClosedPipe
 	}
-	if c.gate != nil && c.off >= c.gateAfter {
-		<-c.gate
+	if c.gate != nil && c.off >= c.gateAfter && !c.gateOpen {
+		if c.rdeadline != nil {
+			select {
+			case <-c.gate:
+			case <-c.rdeadline.C:
+				return 0, vhTimeoutError{}
+			}
+		} else {
+			<-c.gate
+		}
+		if c.closed {
+			return 0, io.ErrClosedPipe
+		}
 	}
 	if c.off >= len(c.data) {
 		if c.endErr != nil {
@@ -77,9 +90,33 @@ func (c *vhFakeConn) Write(b []byte) (int, error) {
 	return len(b), nil
 }
 
-func (c *vhFakeConn) Close() error                       { c.closed = true; return nil }
+func (c *vhFakeConn) Close() error {
+	c.closed = true
+	c.release() // a Read blocked on the gate returns (with an error: the connection is closed)
+	return nil
+}
+
+// release opens the gate (once).
+func (c *vhFakeConn) release() {
+	if c.gate != nil && !c.gateOpen {
+		c.gateOpen = true
+		close(c.gate)
+	}
+}
 func (c *vhFakeConn) LocalAddr() net.Addr                { return vhAddr{} }
 func (c *vhFakeConn) RemoteAddr() net.Addr               { return vhAddr{} }
-func (c *vhFakeConn) SetDeadline(t time.Time) error      { return nil }
-func (c *vhFakeConn) SetReadDeadline(t time.Time) error  { return nil }
+func (c *vhFakeConn) SetDeadline(t time.Time) error { return c.SetReadDeadline(t) }
+func (c *vhFakeConn) SetReadDeadline(t time.Time) error {
+	if c.gate == nil {
+		return nil // deadlines only matter for connections that can make a Read wait
+	}
+	if c.rdeadline != nil {
+		c.rdeadline.Stop()
+		c.rdeadline = nil
+	}
+	if !t.IsZero() {
+		c.rdeadline = time.NewTimer(time.Until(t))
+	}
+	return nil
+}
 func (c *vhFakeConn) SetWriteDeadline(t time.Time) error { return nil }
